@@ -99,7 +99,7 @@ Theorem C20_ffdc : forall cd version t b k, utf8_encode t = Some b -> ends_nul t
 Proof. exact ffdc_ok. Qed.
 Print Assumptions C20_ffdc.
 
-(* ... and that value is the encoded one: for every JSON value j (no floats, scalar-value strings, distinct keys, integers
+(* ... and that value is the encoded one: for every JSON value j (no floats, strings without an adjacent surrogate pair, distinct keys, integers
    within the digit limit, nesting <= 200) and every text of it - json.dumps(j), json.dumps(j, indent=..), any blanks - the
    section shows j itself; text json.loads rejects makes the parser raise (the PEL layer then shows the error note and the
    hex dump, C04 / C18) *)
